@@ -60,6 +60,8 @@ Messages == UNION {{[k |-> "PeerMessage", party |-> env.sess[i].party, from |-> 
                     \cup (IF "pong" \in MSGSEL THEN {[t |-> "resp", rid |-> r, body |-> "pong"] : r \in subm} ELSE {})
                     \cup (IF "nodes2" \in MSGSEL THEN {[t |-> "resp", rid |-> r, body |-> "nodes", total |-> 2] : r \in subm} ELSE {})
                     \cup (IF "intok" \in MSGSEL THEN {[t |-> "resp", rid |-> r, body |-> "nodes", total |-> 1, rec |-> Name(env.sess[i].party \o ":", 1)] : r \in IntRids} ELSE {})
+                    \cup (IF "intforeign" \in MSGSEL THEN {[t |-> "resp", rid |-> r, body |-> "nodes", total |-> 1, rec |-> Name(x \o ":", 9)] :
+                                                              r \in IntRids, x \in {"p1", "p2", "p3"} \ {env.sess[i].party}} ELSE {})   \* another node's (address-less) record
                     \cup (IF "intnone" \in MSGSEL THEN {[t |-> "resp", rid |-> r, body |-> "nodes", total |-> 1, rec |-> "none"] : r \in IntRids} ELSE {})}
               : i \in 1..Len(env.sess)}
 Replays == UNION {{[k |-> "Replay", idx |-> i, from |-> f] : f \in {env.inj[i].from} \cup (IF ATTACKER THEN {"aA"} ELSE {})} : i \in 1..Len(env.inj)}
@@ -196,6 +198,9 @@ GoalSendAfterRotateBack == ~(\E i \in 1..Len(h.tx) : h.tx[i].kind = "msg" /\ ~h.
 \* the challenge expires and the request is released
 GoalPendingAfterExpiredChallenge == ~(last.expPend /\ h.pend = <<>> /\ h.chal = <<>> /\ (\E i \in 1..Len(h.tx) : h.tx[i].kind = "msg" /\ h.tx[i].body.t = "req")
                                       /\ (\A i \in 1..Len(h.ev) : h.ev[i].e # "RequestFailed") /\ Len(h.sessq) >= 1)
+\* the node's own record request to a contact without record is answered with the genuine record of another node
+GoalForeignEnrAnswer == ~(last.in.k = "PeerMessage" /\ last.rin.k = "msg" /\ last.in.msg.t = "resp" /\ "rec" \in DOMAIN last.in.msg /\ last.in.msg.rec \notin {"none", Name(last.in.party \o ":", 1)}
+                          /\ \E i \in 1..Len(h.ev) : h.ev[i].e = "Unverifiable")
 GoalBadSigKeepsChallenge == ~(last.rin.k = "hs" /\ last.rin.signer = "bad" /\ HasChal(h, Addr(last.rin.src, last.rin.from)))
 GoalReplayedHs  == ~(last.in.k = "Replay" /\ last.rin.k = "hs" /\ Len(h.sessq) >= 1)
 =============================================================================
